@@ -60,7 +60,7 @@ func (r *Run) thorough() bool { return r.Tier == "thorough" }
 
 // violate records a violation of the run's property.
 func (r *Run) violate(oracle, discriminator, detail string) {
-	if r.onlyOracles != nil && !r.onlyOracles[oracle] {
+	if r.onlyOracles != nil && !r.onlyOracles[oracle] && !r.onlyOracles[oracle+"/"+discriminator] {
 		r.Res.Stats["ignored_other_oracle_"+oracle]++
 		r.otherFailed = true
 		return
